@@ -9,6 +9,7 @@
                       out = [[woc]; 13::bytes]
      18003 ROUNDTRIP  ps = [dbg; rk; tcode; has_prex; model; has_prer]  vs = [13::Fx; 13::SX; 13::Fr; 13::S0]
                       out = [[woc_x; oc; woc_after; acc]; 13::written; 13::dump_after; 15::raw_after]
+     18005 CONSTRUCT  ps = [dbg; tcode; sh...]                          out = [[woc]]   (alloc + fill + write_to of a grid shape)
      18004 DIST       ps = [tag; payload; model]                        out = [[woc; oc; tag'; payload']; 13::bytes]
    F = write_to of the freshly allocated (and filled) object: it fixes the capacities; S0 = an optional first
    stream read into it (so that the current dimensions differ from the capacity); S = the stream under test.
@@ -305,10 +306,11 @@ Definition run_dist (ps : list Z) : option (list (list Z)) :=
 
 Definition run_c18 (code : Z) (ps : list Z) (vs : list (list Z)) : option (list (list Z)) :=
   match code with
-  | 18001 | 18011 | 18012 | 18013 | 18014 | 18016 => run_read ps vs
+  | 18001 | 18011 | 18012 | 18013 | 18014 | 18015 | 18016 => run_read ps vs
   | 18002 => run_write ps vs
   | 18003 | 18031 | 18032 | 18033 | 18034 | 18035 | 18036 => run_roundtrip ps vs
   | 18004 => run_dist ps
+  | 18005 => Some [[0]]                 (* a shape of the grid is allocated, filled and written: must succeed *)
   | _ => None
   end.
 
@@ -417,8 +419,17 @@ Definition top_meta (brk_done : bool) (g : gobj) : list Z :=
 Definition brk_complete (s : bytes) : bool :=
   match parse_kseq false [(10, FKDist)] s_gglwe s with Some _ => true | None => false end.
 
+(* a parsed stream object that a writer can have produced: every header describes exactly its payload with products below
+   2^64 in the order the code multiplies, size <= max_size, non-zero radix / digit size *)
+Definition honest_flat (f : flat) : bool :=
+  (length (fh f) =? nhdr (fk f))%nat && negb (snd (chain (fixed_factors (fk f) (fh f)))) &&
+  negb (snd (chain (factors (fk f) (fh f)))) && (lprod (factors (fk f) (fh f)) =? blen (fd f)) &&
+  (match fk f with KVec => hd_ (fh f) 2 <=? hd_ (fh f) 3 | _ => true end).
+Definition honest_g (g : gobj) : bool := forallb honest_flat (leaves g) && valid_g g.
+
 (* clause selector: 0 = all, 1 = outcome + active bytes within the buffer, 2 = max_size within the buffer,
-   3 = metadata unchanged on Err, 4 = no zero radix / digit size accepted, 5 = round trip,
+   3 = metadata unchanged on Err, 4 = no zero radix / digit size accepted,
+   5 = round trip (READ records: a stream that is an honest serialisation is accepted and reproduced),
    6 = metadata of the composite itself (top_meta) unchanged on Err: implied by 3, used to tell "sub-keys 0..k-1
        replaced" (known) from "dist / counts changed" (never known) *)
 Definition clauses (sel : Z) (a b c d e t : bool) : Z :=
@@ -449,7 +460,15 @@ Definition oracle_read (sel : Z) (ps : list Z) (vs outs : list (list Z)) : Z :=
           let c := negb (oc =? 1) || match ga with Some g => eq_list (meta g) (meta gb) | None => false end in
           let d := negb (oc =? 0) || match ga with Some g => valid_g g | None => false end in
           let t := negb (oc =? 1) || match ga with Some g => let bd := brk_complete (v vs 2) in eq_list (top_meta bd g) (top_meta bd gb) | None => false end in
-          clauses sel a b c d true t
+          (* a stream that IS the serialisation of a well-formed object of the receiver's shape, within its capacities, must be
+             read (Ok) and reproduce that object: read_from may not reject what write_to produces *)
+          let e := match parse_gobj sc (v vs 2) with
+                   | Some x => if honest_g x && eq_list (shape_g x) (shape_g gb) && all2 (fun f c => blen (fd f) <=? c) (leaves x) caps
+                               then (oc =? 0) && match ga with Some g => eq_list (logical g) (logical x) | None => false end
+                               else true
+                   | None => true
+                   end in
+          clauses sel a b c d e t
       end
     end
   end.
@@ -514,12 +533,13 @@ Definition oracle_c18 (code : Z) (ps : list Z) (vs outs : list (list Z)) : Z :=
   | 18001 => oracle_read 0 ps vs outs
   | 18011 => oracle_read 1 ps vs outs | 18012 => oracle_read 2 ps vs outs
   | 18013 => oracle_read 3 ps vs outs | 18014 => oracle_read 4 ps vs outs
-  | 18016 => oracle_read 6 ps vs outs
+  | 18015 => oracle_read 5 ps vs outs | 18016 => oracle_read 6 ps vs outs
   | 18002 => oracle_write ps vs outs
   | 18003 => oracle_roundtrip 0 ps vs outs
   | 18031 => oracle_roundtrip 1 ps vs outs | 18032 => oracle_roundtrip 2 ps vs outs
   | 18033 => oracle_roundtrip 3 ps vs outs | 18034 => oracle_roundtrip 4 ps vs outs
   | 18035 => oracle_roundtrip 5 ps vs outs | 18036 => oracle_roundtrip 6 ps vs outs
   | 18004 => oracle_dist ps outs
+  | 18005 => obz (nth 0 (nth 0 outs []) 9 =? 0)
   | _ => 2
   end.
